@@ -28,7 +28,9 @@ MANIFEST = {
             'only references, width-first units before every later-created '
             'unit, consistent counts/rates/outputs, and SynthDesc must accept '
             'them and agree with the independent reader on name, controls, '
-            'gate flag and bus units. Deliberately invalid graphs must be '
+            'gate flag and bus units (type, rate, channels, and the bus: its '
+            'constant or the name of the control it is wired to). '
+            'Deliberately invalid graphs must be '
             'rejected with an exception or else satisfy all of the above '
             '(NaN / None / str in any input of any catalogue unit at any '
             'rate, tuples whose members are constants of the graph, rate '
@@ -250,6 +252,34 @@ def compare_desc(d, desc, v, how):
         v.fail('reader_inputs', f'{how}: {got_in} vs {exp_in}')
     if got_out != exp_out:
         v.fail('reader_outputs', f'{how}: {got_out} vs {exp_out}')
+    if got_in != exp_in or got_out != exp_out:
+        return
+    # the bus of each recovered unit: the constant, or the name of the
+    # control it is wired to ('?' for a slot without a name of its own);
+    # a bus computed by other units is not compared
+    io_units = [u for u in d['units'] if u['name'] in IN_UNITS] + \
+        [u for u in d['units'] if u['name'] in OUT_UNITS]
+    for u, io in zip(io_units, list(desc.inputs) + list(desc.outputs)):
+        if u['name'] in ('LocalIn', 'LocalOut') or not u['inputs']:
+            continue
+        a, bi = u['inputs'][0]
+        if a < 0:
+            exp_bus = d['constants'][bi]
+            ok = isinstance(io.starting_channel, (int, float)) and \
+                f32eq(G.f32(io.starting_channel), exp_bus)
+        elif d['units'][a]['name'] in ('Control', 'TrigControl',
+                                       'LagControl'):
+            # (an audio-rate control is not resolved to its name, as in
+            # SuperCollider: AudioControl is no kind of Control)
+            exp_bus = names.get(d['units'][a]['special'] + bi, '?')
+            ok = isinstance(io.starting_channel, str) and \
+                io.starting_channel == exp_bus
+        else:
+            continue
+        if not ok:
+            v.fail('reader_bus',
+                   f'{how}: {u["name"]} bus {io.starting_channel!r} vs '
+                   f'{exp_bus!r}')
 
 
 def compile_spec(spec, builder_cls, v, **kw):
